@@ -202,15 +202,17 @@ class Pretty:
         yield pretty_text
 
     def __rich_measure__(self, console: "Console", max_width: int) -> "Measurement":
+        # laid out as __rich_console__ does it: the margin comes off the width first
         pretty_str = pretty_repr(
             self._object,
-            max_width=max_width,
+            max_width=max_width - self.margin,
             indent_size=self.indent_size,
             max_length=self.max_length,
             max_string=self.max_string,
             expand_all=self.expand_all,
         )
         text_width = max(cell_len(line) for line in pretty_str.splitlines())
+        text_width += self.margin
         return Measurement(text_width, text_width)
 
 
